@@ -109,7 +109,6 @@ func uniq(xs []string) []string {
 	return out
 }
 
-
 // ---- specification side ---------------------------------------------------------------------
 
 func hasPriv(u *userSpec, db string, want int) bool {
